@@ -300,6 +300,19 @@ func diffWorld(run *vh.Run, label string, wi int, nBlocks int) {
 		}
 	}
 	for b := 0; b < nBlocks; b++ {
+		if b%20 == 9 { // multi-step SELFDESTRUCT history inside one transaction (pay, destroy, pay, destroy, forward)
+			owner := vh.Pick(r, w.EOAs)
+			if w.C.Balance(owner.Addr).Cmp(vh.Ether(100)) >= 0 {
+				sc := w.PlanRepeatDestroy(owner, common.BytesToAddress(r.Bytes(20)), big.NewInt(int64(1+r.Intn(1000))*1e12))
+				known[sc.Vault], known[sc.Orch], known[sc.Beneficiary] = struct{}{}, struct{}{}, struct{}{}
+				runPlans(sc.Deploy)
+				runPlans([]*vh.TxPlan{sc.Fire(w, owner)})
+				run.Count("repeat_destroy_scenarios", 1)
+				if run.Violations() > 0 {
+					return
+				}
+			}
+		}
 		var plans []*vh.TxPlan
 		n := r.Range(1, 5)
 		for i := 0; i < n; i++ {
